@@ -451,6 +451,8 @@ func (x *Exec) applyHookEffects(st *State, fr *Frame, h *Hook, extra map[string]
 			x.unsupported("%v", err)
 		}
 		st.assume(t)
+		// an assumption is never silent: it goes into the evidence with its stated reason
+		x.assumed[fmt.Sprintf("hook assumption in %s at %s %s (%s): [%s] %s", x.con.Name, h.When, h.Pattern, shortPos(c.Pos), truncate(c.Note, 200), truncate(c.Src, 160))] = true
 	}
 	// simultaneous assignment
 	newVals := map[string]Val{}
@@ -1745,4 +1747,12 @@ func collectIdents(e Expr, out map[string]bool) {
 		collectIdents(n.A, out)
 		collectIdents(n.B, out)
 	}
+}
+
+// shortPos keeps the file's base name and line of a contract position.
+func shortPos(p string) string {
+	if i := strings.LastIndex(p, "/"); i >= 0 {
+		return p[i+1:]
+	}
+	return p
 }
